@@ -80,7 +80,7 @@ def main(argv):
     finally:
         shutil.rmtree(scratch, ignore_errors=True)
     os.makedirs(os.path.join(VERIF, 'selftest'), exist_ok=True)
-    rp = os.path.join(VERIF, 'selftest', 'RESULTS.md')
+    rp = os.environ.get('VERIF_SELFTEST_RESULTS') or os.path.join(VERIF, 'selftest', 'RESULTS.md')
     old = {}
     if os.path.exists(rp):
         for l in open(rp):
